@@ -41,6 +41,9 @@ fn gen_c13(ctx: &mut Ctx, g: &(dyn Fn(&mut Ctx) -> Option<FCase> + Sync)) -> Opt
     ctx.set_class(1);
     for l in v.attr_lists_mut() {
         for k in 0..l.len() {
+            if l[k].fixed {
+                continue;
+            }
             let can_bare = has_bare_form(&l[k].name);
             let prev_o2o = k > 0 && l[k - 1].form != Form::Bare;
             // options: keep default | the other wrapper | join previous list
@@ -111,7 +114,12 @@ fn check_pair(prop: &str, space: &str, choices: &[u32], p: &Pair, rep: &Report, 
     } else {
         rep.count("pairs_rejected", 1);
     }
-    if let Some((kind, detail)) = diff(&a.out, &b.out, strip_suffix) {
+    // C12 is about the generated impls: when both forms are rejected the wording of the diagnostics (which names the
+    // instruction as written) is not compared; C13 compares the diagnostic sets too
+    let both_rejected = matches!((&a.out, &b.out), (Out::Errs(_), Out::Errs(_)));
+    if !strip_suffix && both_rejected {
+        rep.count("pairs_both_rejected", 1);
+    } else if let Some((kind, detail)) = diff(&a.out, &b.out, strip_suffix) {
         let mut f = fail(space, choices, &a_src, &p.base.tags, &kind, detail);
         f.aux = b_src.clone();
         f.tags.push(format!("what={}", p.what));
